@@ -29,7 +29,7 @@ def slice_call(ctx, path, fields, limit, serial, fformat="return", outfile=None,
     def go():
         md = Mandoline(path, fields=list(fields), limit_level=limit, serial=serial, verbose=0)
         return md.slice(normal=normal, pos=pos, outfile=outfile, fformat=fformat)
-    o = run_tool(ctx, go, cwd=ctx.scratch, label=label or f"Mandoline({fields},L={limit},serial={serial}).slice({normal},{pos},{fformat})")
+    o = run_tool(ctx, go, label=label or f"Mandoline({fields},L={limit},serial={serial}).slice({normal},{pos},{fformat})")
     if o.ok and fformat == "array":
         with np.load(outfile + ".npz", allow_pickle=True) as z:
             o.value = {k: z[k] for k in z.files}
@@ -68,8 +68,9 @@ def run_case(ctx):
     common.draw_env(ctx)
     common.prelude(ctx)
     m = world.gen_world(src, force_2d=True, special_ok=False, min_cells0=4)
-    path, _ = common.materialise(ctx, m)
     req, outnames = draw_fields(src, m)
+    path, hcwd, _abs, hmode = common.history_materialise(
+        ctx, m, lambda p: [slice_call(ctx, p, req, None, ser, "return") for ser in (True, False)])
     limit = src.draw("limit.v", 0, m.nlev - 1) if src.flag("limit") else None
     L = m.nlev - 1 if limit is None else limit
     fformat = src.choice("fformat", ["return", "array"])
